@@ -65,7 +65,7 @@ func genModel(c *core.Ctx) []*genType {
 						if st, ok := named.Underlying().(*types.Struct); ok {
 							for i := 0; i < st.NumFields(); i++ {
 								fv := st.Field(i)
-								g.Fields = append(g.Fields, genField{Name: fv.Name(), Var: fv, Embedded: fv.Embedded()})
+								g.Fields = append(g.Fields, genField{Name: core.NameOf(fv), Var: fv, Embedded: fv.Embedded()})
 							}
 						}
 						byName[g.Name] = g
@@ -233,9 +233,9 @@ func recvSelFields(inf *types.Info, recv types.Object, n ast.Node) []string {
 			return true
 		}
 		if id, ok := core.Unparen(sel.X).(*ast.Ident); ok && core.ObjOf(inf, id) == recv && recv != nil {
-			if fv, ok := core.ObjOf(inf, sel).(*types.Var); ok && fv.IsField() && !seen[fv.Name()] {
-				seen[fv.Name()] = true
-				out = append(out, fv.Name())
+			if fv, ok := core.ObjOf(inf, sel).(*types.Var); ok && fv.IsField() && !seen[core.NameOf(fv)] {
+				seen[core.NameOf(fv)] = true
+				out = append(out, core.NameOf(fv))
 			}
 		}
 		return true
